@@ -43,6 +43,12 @@ def esc_cases():
         out.append(('parser { "a%s"; }' % x, "malformed \\x at the end of a match"))
         out.append(('out str[8] s; parser { "a"; s = "%s"; }' % x, "malformed \\x in assignment"))
         out.append(('out str[8] s = "%sb"; parser { "a"; }' % x, "malformed \\x in default"))
+    # every high byte in every literal position (case folding, set membership and emission all handle them separately)
+    for c in range(0x80, 0x100):
+        out.append(('parser { "a\\x%02x"i; "z"; }' % c, "high byte in a case-insensitive match"))
+        out.append(('out str[4] s; parser { "\\x%02x"; s = "\\x%02xq"; }' % (c, c), "high byte in match and assignment"))
+        out.append(('parser { /[\\x%02x-\\xff]x/; }' % c, "high byte in a regex range") if False else ('parser { /a|%s/; "z"; }' % chr(c), "raw high character in a regex"))
+        out.append(('parser { "%s"i; "z"; }' % chr(c), "raw high character in a case-insensitive match"))
     for b in ['""b', '"6"b', '"61 6"b', '"6g"b', '"61,62"b', '"  "b', '"0x61"b']:
         out.append(('parser { %s; }' % b, "binary literal"))
         out.append(('out str[8] s = %s; parser { "a"; }' % b, "binary default"))
